@@ -62,8 +62,8 @@ def ref(t: str) -> bool:
     post: _
     """
     s = PRE + t + SUF
-    if s.count("?") > 1 or "~" in s:
-        return True
+    if "~" in s:
+        return True          # (several '?': the first splits off the query, the others are pair separators -- "all ? can be used as &")
     try:
         want = unfold_ref.unfold_ref(s)
         want_err = False
